@@ -214,14 +214,33 @@ func (cel *CryptoAgileLog) Unmarshal(r io.Reader) error {
 	}
 	for {
 		evt := &TCGPCREvent2{}
-		if err := littleRead(r, "Event", evt); err != nil {
+		cr := &countingReader{r: r}
+		if err := littleRead(cr, "Event", evt); err != nil {
 			if errors.Is(err, io.EOF) {
-				return nil
+				// The log ends where no byte of a further event remains. An end of input inside an
+				// event is a truncated log, not the end of the log.
+				if cr.n == 0 {
+					return nil
+				}
+				return fmt.Errorf("event log is truncated in event %d: %v", len(cel.Events), err)
 			}
 			return err
 		}
 		cel.Events = append(cel.Events, evt)
 	}
+}
+
+// countingReader counts the bytes delivered by the reader it wraps.
+type countingReader struct {
+	r io.Reader
+	n int64
+}
+
+// Read reads from the wrapped reader.
+func (c *countingReader) Read(p []byte) (int, error) {
+	n, err := c.r.Read(p)
+	c.n += int64(n)
+	return n, err
 }
 
 // Marshal writes a CryptoAgileLog to the given writer
